@@ -4,7 +4,7 @@
    dependency list.  [Reach g T x]: x is reachable from T along dependency edges;
    [Path g x x]: x lies on a cycle. *)
 From Coq Require Import List Arith Bool Permutation.
-From Conductor Require Import Model.Loader Model.Planner Model.Exec Model.RunCase Proofs.LoaderProofs.
+From Conductor Require Import Model.Loader Model.Planner Model.Exec Model.RunCase Proofs.LoaderProofs Proofs.ValidateProofs.
 Import ListNotations.
 
 (* every outcome is justified: a cycle error => a cycle is reachable; task-not-found for x => x is
@@ -58,6 +58,25 @@ Proof.
 Qed.
 Print Assumptions C14_no_exec.
 
+(* Whole-project validation (TaskIndex.validate_all_loaded_tasks, used by the explorer), for EVERY
+   project g and EVERY order [keys] of the loaded tasks: every outcome is justified -- a cycle
+   error => a cycle is reachable from a loaded task; task-not-found for x => x is reachable from a
+   loaded task and is not loaded; success => every loaded task's dependencies are loaded, no
+   loaded task lies on a cycle, and the reported roots are EXACTLY the loaded tasks that no loaded
+   task depends on, each once. *)
+Theorem C14_validate_all_sound : forall g keys fuel, vsound g keys (validate_all g fuel keys).
+Proof. exact validate_all_sound. Qed.
+Print Assumptions C14_validate_all_sound.
+
+(* ... and with [vfuel g keys] steps it always decides: it accepts iff the project has no defect
+   (no cycle and no dangling dependency reachable from a loaded task), whatever the order *)
+Theorem C14_validate_all_decides : forall g keys fuel, vfuel g keys <= fuel ->
+  ((exists roots, validate_all g fuel keys = VOk roots) <-> ~ VDefect g keys) /\
+  (forall roots, validate_all g fuel keys = VOk roots ->
+     (forall t, In t roots <-> In t keys /\ forall x, In x keys -> ~ In t (deps_of_kind (g x))) /\ NoDup roots).
+Proof. exact validate_all_decides. Qed.
+Print Assumptions C14_validate_all_decides.
+
 (* non-vacuity: a diamond listed in both orders is accepted; adding a back edge is a cycle error *)
 Definition gd (order : bool) : graph := fun x =>
   match x with
@@ -75,3 +94,9 @@ Proof.
   split; [repeat constructor; simpl; intuition discriminate|]. split; [simpl; auto|].
   intros x ds Hx Hg d Hd. simpl in Hx. destruct Hx as [<-|[<-|[<-|[]]]]; simpl in Hg; inversion Hg; subst; simpl in *; intuition.
 Qed.
+
+Example C14_validate_nonvacuous :
+  validate_all (gd true) 50 [2; 0; 1] = VOk [0] /\ validate_all (gd true) 50 [0; 1] = VNotFound 2 /\
+  validate_all (fun x => match x with 2 => Good [0] | _ => gd true x end) 50 [1; 0; 2] = VCycle.
+Proof. vm_compute. auto. Qed.
+
